@@ -450,8 +450,11 @@ def term():
         "f1early": "def f(a):\n    if a > 1:\n        return a\n    db.On = a\n    return a + 1\n",
         "f3": "def aa(a):\n    db.On = a\ndef bb(b):\n    db.Mode = b\ndef cc(c):\n    db.Lock = c\n    aa(c)\n    bb(c)\n",
         "unused": "def f(a):\n    db.On = a\ndef never(b):\n    db.Open = b\n",
+        # a chain of never-called functions that call the (once-called, hence inlined) function f
+        "deadchain": "def f(a):\n    db.On = a\ndef step(b):\n    f(b)\n    f(b + 1)\ndef run(c):\n    step(c)\n",
+        "deadchain1": "def f(a):\n    db.On = a\ndef step(b):\n    f(b)\ndef run(c):\n    step(c)\n    step(c + 1)\n",
     }
-    call = {"f1": "f({})", "f1r": "db.Setting = f({})", "f2": "g({})", "f1early": "db.Setting = f({})", "f3": "cc({})", "unused": "f({})"}
+    call = {"f1": "f({})", "f1r": "db.Setting = f({})", "f2": "g({})", "f1early": "db.Setting = f({})", "f3": "cc({})", "unused": "f({})", "deadchain": "f({})", "deadchain1": "f({})"}
     for fk, fd in fdefs.items():
         c = call[fk].format
         upd = "n = f(n)\n" if fk in ("f1r", "f1early") else c("n") + "\nn += 1\n"
@@ -777,7 +780,8 @@ def _lib_module(pre, ret, twice, never, mainblock, init, effect_attr, second=Fal
     if never:
         s += fdef(P("never"), ["z"], f"global {P('limit')}\n{P('limit')} = 1\ndb.Open = z + {P('count')}\n")
     if mainblock and not pre:
-        s += 'if __name__ == "__main__":\n    limit = 2\n    db.Open = 77\n    while True:\n        yield_()\n'
+        # the block calls the library's own functions (a self-test): those calls must not count anywhere
+        s += 'if __name__ == "__main__":\n    limit = 2\n    db.Open = 77\n    while True:\n        ' + ("db.Open = bump(3)" if ret else "bump(3)") + '\n        yield_()\n'
     return s
 
 
@@ -977,6 +981,11 @@ def constprop(tier="quick"):
         "param-cond-once": "def clamp(v):\n    if v > 1:\n        v = {c}\n    return v\nwhile True:\n    db.Setting = clamp(d0.Setting)\n    yield_()\n",
         "param-uncond": "def f(v):\n    db.On = v\n    v = {c}\n    db.Mode = v\n    return v\nwhile True:\n    db.Setting = f(d0.Setting)\n    db.Lock = f(2)\n    yield_()\n",
         "param-second": "def f(a, v):\n    if a > v:\n        v = {c}\n    db.On = a\n    return v + a\nwhile True:\n    db.Setting = f(d0.Setting, 1)\n    db.Lock = f(2, d1.Setting)\n    yield_()\n",
+        # the argument is a plain variable of the caller that is read again after the (inlined, single call site) call
+        "param-arg-var-once": "def clamp(v):\n    if v > 1:\n        v = {c}\n    return v\nwhile True:\n    raw = d0.Setting\n    lim = clamp(raw)\n    db.Setting = raw\n    db.On = lim\n    yield_()\n",
+        "param-arg-var-twice": "def clamp(v):\n    if v > 2:\n        v = {c}\n    if v < 1:\n        v = 1\n    return v\nwhile True:\n    raw = d0.Setting\n    lim = clamp(raw)\n    db.Setting = raw\n    db.On = lim\n    yield_()\n",
+        "param-arg-var-aug": "def bump(v, w):\n    v += w\n    db.Mode = v\nwhile True:\n    raw = d0.Setting\n    bump(raw, {c})\n    db.Setting = raw\n    yield_()\n",
+        "param-arg-var-uncond": "def f(v):\n    db.Mode = v\n    v = {c}\n    db.Lock = v\nwhile True:\n    raw = d0.Setting\n    f(raw)\n    db.Setting = raw\n    yield_()\n",
         "global-in-func": "G = d0.Setting\ndef f(a):\n    global G\n    if a > 1:\n        G = {c}\n    db.On = a\nwhile True:\n    db.Mode = G\n    f(d1.Setting)\n    db.Setting = G\n    f(0)\n    yield_()\n",
         "global-const-then-func": "G = {c}\ndef f(a):\n    global G\n    G = G + a\nwhile True:\n    db.Mode = G\n    f(d0.Setting)\n    f(1)\n    db.Setting = G\n    yield_()\n",
         "loopvar-after": "t = 0\nfor i in range(3):\n    t = {c}\n    if i == d0.Setting:\n        t = i\n    db.On = t\n",
